@@ -723,7 +723,7 @@ func c20ServerStopPart(r *mc.Report) {
 		}
 	}
 	if len(res.Inconclusive) > 0 {
-		p.Cap(fmt.Sprintf("%d scenario(s) could not be set up: %s", len(res.Inconclusive), strings.Join(res.Inconclusive, " | ")))
+		p.Cap(fmt.Sprintf("%d scenario(s) could not be set up or were not confirmed by their re-runs: %s", len(res.Inconclusive), strings.Join(res.Inconclusive, " | ")))
 	}
 	p.Done()
 }
